@@ -11,6 +11,7 @@ NOTE = ("Trusted: the gosym interpreter and its intrinsics (validated on every r
         "nothing outside them is claimed. Goroutine interleavings are not explored.")
 
 claimed = {
+ "C05": ("DESIGN.md §4 C05", "Kernels of the no-crash property decided per entry point: ast.Parse/ParseLambda on 27 contexts with N arbitrary inserted bytes (no panic in any goroutine, node xor error, lexer goroutine gone on return, termination within the unwinding budget); further kernels (evaluator faults, node runner, UDF peer messages) as listed in the evidence file. Only these entry points are claimed."),
  "C03": ("DESIGN.md §4 C03", "Time windows: for a table of period/every/align/fillPeriod configurations and every bounded non-decreasing timestamp sequence the solver shows each emission is on the reference schedule with exactly the points in [T-period,T); the ring buffer is covered for histories of any length by an inductive step from an arbitrary valid state; count windows likewise."),
  "C12": ("DESIGN.md §4 C12", "CircularQueue (join/union buffering): inductive step from an arbitrary valid state against an abstract FIFO. (union/join merge-order harnesses: see evidence for what is currently encoded.)"),
  "C20": ("DESIGN.md §4 C20", "AuthorizeAction equals an independent nearest-granted-ancestor reference for all privilege tables over a small path universe and all resources of bounded length; DatabaseResource injectivity decided by the solver over all byte values (known finding recorded)."),
